@@ -4,7 +4,9 @@
 //!   case id=<n> prop=C19 app=<a>
 //!   hs conn=<n> local=<k> tt=allowed exp=<k> | tt=owned inv=<n> | tt=invite inv=<n> signer=<k> app=<a> signapp=<a>
 //!      remote=honest key=<k> [rowid=<j>: the row carries identity j's row id] | wrongkey key=<k> signer2=<k> | replay key=<k> from=<conn> | badrow key=<k> how=<h> | noanswer how=<h>
-//!        -> res=<true|false|err> key=<k|-> ready=<0|1> events=<Ready|ReadyFingerprint|-> msgs=<connected:k,accepted:k|->
+//!        -> res=<true|false|err> key=<k|-> ready=<0|1> events=<Ready|ReadyFingerprint|-> msgs=<connected:k,accepted:k|-> serve=<a>|<b>|<c>
+//!      serve: what a REAL `InboundQueryService` sharing the key / readiness cells of that handshake answers afterwards to
+//!      RoomList (a: silent | rooms[:0]), HardwareFingerprint (b: silent | fingerprint), RoomNode(private room) (c: refused | data)
 //!   pm-invite n=<n>                              -> ok            (real create_invite)
 //!   pm-lookup tok=inv:<n>|peer:<k> key=<k>       -> allowed <k> | owned <n> | invite <n> | none   (real get_token_type)
 //!   pm-accepted inv=<n> peer=<k>                 -> ok | no-token (real get_token_type + invite_accepted)
@@ -27,10 +29,12 @@ use discret::verif_hooks::security::{
     base64_encode, derive_key, Ed25519SigningKey, HardwareFingerprint, MeetingSecret, MeetingToken, SigningKey, Uid,
 };
 use discret::verif_hooks::signature_verification_service::SignatureVerificationService;
+use discret::verif_hooks::database::room_node::RoomNode;
 use discret::verif_hooks::synchronisation::peer_inbound_service::{LocalPeerService, QueryService};
+use discret::verif_hooks::synchronisation::peer_outbound_service::{InboundQueryService, RemotePeerHandle};
 use discret::verif_hooks::synchronisation::{Answer, Error as SyncError, IdentityAnswer, Query, QueryProtocol, RemoteEvent};
 use dvcommon::{Gen, Stats};
-use std::collections::{HashMap, HashSet};
+use std::collections::{HashMap, HashSet, VecDeque};
 use std::io::{BufWriter, Write};
 use std::path::PathBuf;
 use std::sync::atomic::{AtomicBool, Ordering};
@@ -327,14 +331,93 @@ impl Case {
                 _ => "?".into(),
             });
         }
+        let serve = self.serve_probe(bound.clone(), ready.clone()).await;
         format!(
-            "res={} key={} ready={} events={} msgs={}",
+            "res={} key={} ready={} events={} msgs={} serve={}",
             res_s,
             key_s,
             if ready.load(Ordering::Relaxed) { 1 } else { 0 },
             if ev.is_empty() { "-".to_string() } else { ev.join(",") },
-            if ms.is_empty() { "-".to_string() } else { ms.join(",") }
+            if ms.is_empty() { "-".to_string() } else { ms.join(",") },
+            serve
         )
+    }
+
+    /// the serving side of the SAME connection: a real `InboundQueryService` loop that shares the key and
+    /// readiness cells the handshake has just (not) written, asked for the room list, the hardware
+    /// fingerprint and the definition row of the instance's private room
+    async fn serve_probe(&self, key: Arc<Mutex<Vec<u8>>>, ready: Arc<AtomicBool>) -> String {
+        let (qtx, qrx) = mpsc::channel::<QueryProtocol>(8);
+        let (atx, mut arx) = mpsc::channel::<Answer>(64);
+        let (ptx, _prx) = mpsc::channel::<PeerConnectionMessage>(8);
+        let _svc = InboundQueryService::start(
+            HardwareFingerprint { id: [9u8; 16], name: "dv".into() },
+            [1u8; 32],
+            uid_n(1),
+            RemotePeerHandle { db: self.svc.clone(), allowed_room: HashSet::new(), verifying_key: self.own_key.clone(), reply: atx },
+            qrx,
+            PeerConnectionService { sender: ptx },
+            key,
+            ready,
+        );
+        let private_room = self.params.private_room_id;
+        let mut out: Vec<String> = vec![];
+        for i in 0..3u64 {
+            let q = match i {
+                0 => Query::RoomList,
+                1 => Query::HardwareFingerprint(),
+                _ => Query::RoomNode(private_room),
+            };
+            if qtx.send(QueryProtocol { id: 2 * i, query: q }).await.is_err() {
+                return "err:closed".into();
+            }
+            // a probe that is always answered (a refusal): requests are processed in order
+            if qtx.send(QueryProtocol { id: 2 * i + 1, query: Query::RoomNode([0xEE; 16]) }).await.is_err() {
+                return "err:closed".into();
+            }
+            let mut answers: Vec<Answer> = vec![];
+            loop {
+                match tokio::time::timeout(std::time::Duration::from_secs(20), arx.recv()).await {
+                    Ok(Some(a)) if a.id == 2 * i + 1 => break,
+                    Ok(Some(a)) => answers.push(a),
+                    _ => return "err:timeout".into(),
+                }
+            }
+            let refused = answers.iter().any(|a| !a.success && matches!(bincode::deserialize::<SyncError>(&a.serialized), Ok(SyncError::Authorisation(_))));
+            out.push(if answers.is_empty() {
+                "silent".into()
+            } else if refused {
+                "refused".into()
+            } else if answers.iter().any(|a| !a.success) {
+                "err:remote".into()
+            } else {
+                match i {
+                    0 => {
+                        let mut rooms: Vec<String> = vec![];
+                        for a in answers.iter().filter(|a| !a.complete) {
+                            match bincode::deserialize::<VecDeque<Uid>>(&a.serialized) {
+                                Ok(l) => rooms.extend(l.iter().map(|r| if *r == private_room { "0".to_string() } else { "?".to_string() })),
+                                Err(_) => return "err:decode".into(),
+                            }
+                        }
+                        rooms.sort();
+                        if rooms.is_empty() { "rooms".into() } else { format!("rooms:{}", rooms.join("+")) }
+                    }
+                    1 => match bincode::deserialize::<HardwareFingerprint>(&answers[0].serialized) {
+                        Ok(_) => "fingerprint".into(),
+                        Err(_) => "err:decode".into(),
+                    },
+                    _ => match bincode::deserialize::<Option<RoomNode>>(&answers[0].serialized) {
+                        // served (whether or not the private room has a stored definition row to show)
+                        Ok(Some(n)) if n.node.id == private_room => "data".into(),
+                        Ok(Some(_)) => "data:?".into(),
+                        Ok(None) => "data".into(),
+                        Err(_) => "err:decode".into(),
+                    },
+                }
+            });
+        }
+        out.join("|")
     }
 
     fn token_of(&mut self, kv: &Kv) -> Option<MeetingToken> {
